@@ -10,7 +10,7 @@ left without an arm -- judged by the specification and, independently, by a Pyth
 the arms), and the run must not fail."""
 from ..common import *
 
-LEVEL = "model_checked"
+LEVEL = "model_checking"
 
 
 def lit(v):
